@@ -385,7 +385,8 @@ def run(tier, seed):
         shards.append((k, (2, 2), False, 2, ('dropd-first', 0)))      # an unanswered request under the default retry options
         shards.append((k, (2, 2), False, 2, ('late-first', 0)))       # ... and one answered only after its sender gave up
         shards.append((k, (2, 2), False, 2, ('refuse-first', 0)))     # the device dies on the first request, the next connection attempt is refused
-        shards.append((k, (2, 2), False, 2, ('refusetwo-first', 0)))
+        if tier == 'thorough':
+            shards.append((k, (2, 2), False, 2, ('refusetwo-first', 0)))
         shards.append((k, (2, 1), False, 2, ('slow', 0)))
         shards.append((k, (3, 1), False, 2, ('slow', 0)))
         for retries in (0, 1):
